@@ -1,1 +1,140 @@
--- C05: property theorems (to be filled in)
+/-
+C05 — rows for an event depend on that event only.
+
+The theorems are about ANY package accepted by the verified static check `EventLocal`
+(lean/FaxVerif/Cpp/Check.lean) — in particular about the implementation's own output, on which the
+check is evaluated on every run — for every number model, every event list and every history.
+-/
+import FaxVerif.Cpp.EventLocal
+namespace FaxVerif.C05
+open FaxVerif.Cpp
+variable {D : Type}
+
+/-- **C05.job_is_per_event** — one job over a list of events writes exactly what the events
+write when each is processed alone from the initial class state (a faulting event ends the job in
+both readings). No accumulator, flag, vector column or cached value carries over. -/
+theorem job_is_per_event (P : Package) (N : Num D) (hP : EventLocal P = true) (evs : List (Event D)) :
+    runJob P N evs = perEvent P N evs := by
+  have hnd : (classNames P.classVars).Nodup := by
+    unfold EventLocal WellFormed at hP
+    simp only [Bool.and_eq_true, decide_eq_true_eq] at hP
+    simpa [classNames] using hP.1.1.2
+  exact runJobFrom_eq P N hP evs _ (classInit_clean P hnd)
+
+/-- what an event writes when processed alone -/
+def alone (P : Package) (N : Num D) (ev : Event D) : Option (List (List (Val D))) :=
+  match runEvent P N (classInit P.classVars) ev with
+  | .ok (rows, _) => some rows
+  | .error _ => none
+
+theorem perEvent_ok (P : Package) (N : Num D) :
+    ∀ (evs : List (Event D)) (r : List (List (Val D))), perEvent P N evs = .ok r →
+      r = (evs.filterMap (alone P N)).flatten ∧ ∀ ev ∈ evs, (alone P N ev).isSome = true
+  | [], r, h => by simp only [perEvent, Except.ok.injEq] at h; subst h; simp
+  | ev :: evs, r, h => by
+    simp only [perEvent] at h
+    cases he : runEvent P N (classInit P.classVars) ev with
+    | error f => rw [he] at h; simp at h
+    | ok p =>
+      obtain ⟨rows, σ'⟩ := p
+      rw [he] at h
+      simp only [] at h
+      cases hr : perEvent P N evs with
+      | error f => rw [hr] at h; simp at h
+      | ok more =>
+        rw [hr] at h
+        simp only [Except.ok.injEq] at h; subst h
+        obtain ⟨ih1, ih2⟩ := perEvent_ok P N evs more hr
+        have ha : alone P N ev = some rows := by simp [alone, he]
+        refine ⟨by simp [List.filterMap_cons, ha, ih1], ?_⟩
+        intro e hm
+        rcases List.mem_cons.1 hm with rfl | hm
+        · simp [ha]
+        · exact ih2 e hm
+
+theorem perEvent_of_all (P : Package) (N : Num D) :
+    ∀ (evs : List (Event D)), (∀ ev ∈ evs, (alone P N ev).isSome = true) →
+      perEvent P N evs = .ok (evs.filterMap (alone P N)).flatten
+  | [], _ => by simp [perEvent]
+  | ev :: evs, h => by
+    have hev := h ev (by simp)
+    have ih := perEvent_of_all P N evs (fun e hm => h e (by simp [hm]))
+    simp only [perEvent]
+    cases he : runEvent P N (classInit P.classVars) ev with
+    | error f => simp [alone, he] at hev
+    | ok p =>
+      obtain ⟨rows, σ'⟩ := p
+      have ha : alone P N ev = some rows := by simp [alone, he]
+      simp [ih, List.filterMap_cons, ha]
+
+/-- **C05.split** — processing `xs ++ ys` in one job writes what two jobs over `xs` and `ys` write. -/
+theorem split (P : Package) (N : Num D) (hP : EventLocal P = true) (xs ys : List (Event D))
+    (r₁ r₂ : List (List (Val D))) (h₁ : runJob P N xs = .ok r₁) (h₂ : runJob P N ys = .ok r₂) :
+    runJob P N (xs ++ ys) = .ok (r₁ ++ r₂) := by
+  rw [job_is_per_event P N hP] at h₁ h₂ ⊢
+  obtain ⟨e1, a1⟩ := perEvent_ok P N xs r₁ h₁
+  obtain ⟨e2, a2⟩ := perEvent_ok P N ys r₂ h₂
+  rw [perEvent_of_all P N (xs ++ ys) (fun ev hm => by
+    rcases List.mem_append.1 hm with hm | hm
+    · exact a1 ev hm
+    · exact a2 ev hm)]
+  simp [e1, e2, List.filterMap_append]
+
+/-- **C05.prefix_independent** — the rows of an event are unchanged by the events that preceded
+it in the job (including events that wrote no row). -/
+theorem prefix_independent (P : Package) (N : Num D) (hP : EventLocal P = true)
+    (pre : List (Event D)) (ev : Event D) (r : List (List (Val D)))
+    (h : runJob P N (pre ++ [ev]) = .ok r) :
+    ∃ rp re, runJob P N pre = .ok rp ∧ runJob P N [ev] = .ok re ∧ r = rp ++ re := by
+  rw [job_is_per_event P N hP] at h
+  obtain ⟨e, a⟩ := perEvent_ok P N _ r h
+  refine ⟨(pre.filterMap (alone P N)).flatten, ([ev].filterMap (alone P N)).flatten, ?_, ?_, ?_⟩
+  · rw [job_is_per_event P N hP]; exact perEvent_of_all P N pre (fun e hm => a e (by simp [hm]))
+  · rw [job_is_per_event P N hP]; exact perEvent_of_all P N [ev] (fun e hm => a e (by simpa using Or.inr (by simpa using hm)))
+  · simp [e, List.filterMap_append]
+
+/-- **C05.perm** — processing the events in any order gives the same multiset of rows. -/
+theorem perm (P : Package) (N : Num D) (hP : EventLocal P = true) (evs evs' : List (Event D))
+    (hp : evs.Perm evs') (r r' : List (List (Val D)))
+    (h : runJob P N evs = .ok r) (h' : runJob P N evs' = .ok r') : r.Perm r' := by
+  rw [job_is_per_event P N hP] at h h'
+  obtain ⟨e, _⟩ := perEvent_ok P N evs r h
+  obtain ⟨e', _⟩ := perEvent_ok P N evs' r' h'
+  rw [e, e']
+  exact (hp.filterMap _).flatten
+
+/-- **C05.perm_total** — if a job over `evs` completes, the job over any permutation completes too. -/
+theorem perm_total (P : Package) (N : Num D) (hP : EventLocal P = true) (evs evs' : List (Event D))
+    (hp : evs.Perm evs') (r : List (List (Val D))) (h : runJob P N evs = .ok r) :
+    ∃ r', runJob P N evs' = .ok r' := by
+  rw [job_is_per_event P N hP] at h ⊢
+  obtain ⟨_, a⟩ := perEvent_ok P N evs r h
+  exact ⟨_, perEvent_of_all P N evs' (fun ev hm => a ev (hp.symm.subset hm))⟩
+
+/-! ### non-vacuity: a concrete accepted package (the shape emitted for `Select(e -> e.Jets("J").Select(j -> j.pt()))`) -/
+
+def exBody : Stmt :=
+  .block [
+    .decl "const xAOD::JetContainer*" "jets0" none,
+    .block [
+      .decl "const xAOD::JetContainer*" "result" (some (.int 0)),
+      .retrieve "atlas" "xAOD::JetContainer" "result" (.str "J") "",
+      .set "jets0" (.var "result")],
+    .loop "i_obj1" (.deref (.var "jets0")) [
+      .push "_col12" (.mem (.var "i_obj1") true "pt" [])],
+    .fill "atlas_xaod_tree",
+    .clear "_col12"]
+
+def exPkg : Package :=
+  { body := exBody, classVars := [("std::vector<double>", "_col12")], branches := [("col1", "_col12")],
+    tree := "atlas_xaod_tree", tokens := [] }
+
+example : EventLocal exPkg = true := by decide +kernel
+
+/-- the same package without the `clear`: rejected by the check (and indeed not event-local) -/
+def exPkgNoClear : Package :=
+  { exPkg with body := .block ((match exBody with | .block b => b | _ => []).dropLast) }
+
+example : EventLocal exPkgNoClear = false := by decide +kernel
+
+end FaxVerif.C05
